@@ -96,7 +96,9 @@ def evaluate(case):
                 if _ws(v) not in _ws(plain[s0:s1]):
                     why = "name-not-at-span"
                     continue
-                src = [d for d in lst if isinstance(d, FullCaseCitation) and getattr(d.metadata, k_, None) == v]
+                # names are compared whitespace-normalised: the markup pattern strips the name it searches for, while
+                # the citation's own field may keep a trailing blank ("Bar  (2025) 5 P 1" -> defendant 'Bar ')
+                src = [d for d in lst if isinstance(d, FullCaseCitation) and getattr(d.metadata, k_, None) and _ws(getattr(d.metadata, k_)) == _ws(v)]
                 if not src:
                     why = "no-source-citation"
                     continue
